@@ -186,6 +186,7 @@ def write_evidence(ctx, hits, viol):
             "obligations": obligations,
             "discharged": discharged,
             "samples": samples[:60],
+            "instances": [{"rule": r, "instance": str(i)[:160], "verdict": v} for r, i, v, _ in ctx.instances[:500]],
             "rules": per_rule,
             "analysed": {
                 "repo": ctx.repo,
